@@ -48,6 +48,11 @@ def unknowns(rnd):
         ("vendor-aggregate-long-name", [T.T_open("INTU." + "X" * rnd.choice([27, 28, 40])), T.T_leaf("INTU.A", "1"), T.T_CLOSE]),
         ("vendor-leaf-two-dots", [T.T_leaf(rnd.choice(["INTU.ACCT.ID", "COM.INTUIT.BID", "A.B.C.D"]), "7")]),
         ("vendor-aggregate-two-dots", [T.T_open("INTU.EXT.V2"), T.T_leaf("INTU.A.B", "1"), T.T_CLOSE]),
+        # a data element that IS defined - elsewhere: here it is unknown, and skipping it must not teach the library anything
+        ("known-elsewhere-leaf-real-name", [T.T_leaf(rnd.choice(["MEMO", "NAME", "TRNAMT", "CHECKNUM", "FITID", "CODE", "SEVERITY", "ACCTID", "DTPOSTED"]), "1")]),
+        # an unknown wrapper whose name starts with a digit / underscore / dot, around a COPY of a data element the enclosing
+        # aggregate already has (if the wrapper's tags were lost the copy would count as a repetition)
+        ("wrapper-odd-name-around-known-leaf", [T.T_open(rnd.choice(["401KDETAIL", "1099INFO", "_EXT", "3RDPARTY.INFO", "9"])), "COPY-FIRST-LEAF", T.T_CLOSE]),
         # an unknown element named like an element that is open around it / like itself
         ("unknown-nested-same-tag", [T.T_open("ZZSAME"), T.T_open("ZZSAME"), T.T_leaf("ZZLEAF", "x"), T.T_CLOSE, T.T_CLOSE]),
     ]
@@ -61,6 +66,34 @@ def positions(doc):
 def depth_ok(doc, i, schema):
     """not inside a data element (always true for token lists) - every position is legal"""
     return True
+
+
+def first_leaf_of_enclosing(doc, i):
+    """the first data element directly inside the aggregate that encloses position i"""
+    depth = 0
+    start = None
+    for j in range(i - 1, -1, -1):
+        t = doc[j]
+        if t["e"] == "close":
+            depth += 1
+        elif t["e"] == "open":
+            if depth == 0:
+                start = j
+                break
+            depth -= 1
+    if start is None:
+        return None
+    depth = 0
+    for t in doc[start + 1:]:
+        if t["e"] == "open":
+            depth += 1
+        elif t["e"] == "close":
+            if depth == 0:
+                return None
+            depth -= 1
+        elif depth == 0:
+            return t
+    return None
 
 
 def enclosing(doc, i):
@@ -107,7 +140,13 @@ def run(ctx):
                 if enc is not None and any(t["tag"] in {a["tag"] for a in schema.get(enc, {"attrs": []})["attrs"]}
                                            for t in toks[:1]):
                     continue
-                doc = base[:p] + copy.deepcopy(toks) + base[p:]
+                toks = copy.deepcopy(toks)
+                if "COPY-FIRST-LEAF" in toks:
+                    first = first_leaf_of_enclosing(base, p)
+                    if first is None:
+                        continue
+                    toks = [copy.deepcopy(first) if t == "COPY-FIRST-LEAF" else t for t in toks]
+                doc = base[:p] + toks + base[p:]
                 # (thorough: every position of every base; all three routes for the minimal documents)
                 route = rnd.choice(["etree", "xml", "sgml"]) if quick or not name.startswith("min ") else None
                 for r in ([route] if route else ["etree", "xml", "sgml"]):
@@ -120,6 +159,8 @@ def run(ctx):
         for _ in range(3):
             p = rnd.choice(positions(doc))
             kind, toks = rnd.choice(unknowns(rnd))
+            if "COPY-FIRST-LEAF" in toks:
+                continue
             enc = enclosing(doc, p)
             if enc is not None and toks[0]["tag"] in {a["tag"] for a in schema.get(enc, {"attrs": []})["attrs"]}:
                 continue
